@@ -445,11 +445,11 @@ class SimNet:
         if ep is None or key in self.connect_refused or not ep.accepting():
             await asyncio.sleep(delay)
             w.log.add(loop.time(), "connect_refused", cid)
-            w.count_fault("connect_refused")
+            w.count_fault("connect_refused", extend=False)
             raise ConnectionRefusedError(f"simulated: {host}:{port} refused")
         if key in self.blackholed or ep.blackholed():
             w.log.add(loop.time(), "connect_blackholed", cid)
-            w.count_fault("connect_blackholed")
+            w.count_fault("connect_blackholed", extend=False)
             await loop.create_future()  # never completes; caller's timeout cancels
         await asyncio.sleep(delay)
         if not ep.accepting():
